@@ -21,6 +21,8 @@ def r6(ctx):
 
 
 RULES = {
+    # "repeated save/load cycles": the decoder hands the raw names to the map as they are in the document
+    "C13.R9": lambda ctx: __import__("rules.decoderrules", fromlist=["x"]).handover(ctx, "C13.R9"),
     "C13.R8": lambda ctx: __import__("rules.typesrules", fromlist=["x"]).sort_after_write(ctx, "C13.R8"),
     "C13.RG": lambda ctx: __import__("rules.foundations", fromlist=["x"]).no_global_state(ctx, "C13.RG"),
     "C13.R7b": lambda ctx: __import__("rules.bldrules", fromlist=["x"]).map_new(ctx, "C13.R7b"),
